@@ -20,11 +20,12 @@ class Curve:
 
     Fields are available both as attributes (``c.p``) and as items (``c["p"]``):
     name, p, a, b, gx, gy, n, size (coordinate bytes), hashname (default hash;
-    also reachable as ``hash``), g (base point tuple).
+    also reachable as ``hash``, ``hash_name``, ``default_hash``), g (base point tuple).
     """
 
     __slots__ = ("name", "p", "a", "b", "gx", "gy", "n", "size", "hashname")
-    _KEYS = ("name", "p", "a", "b", "gx", "gy", "n", "size", "hashname", "hash", "g")
+    _KEYS = ("name", "p", "a", "b", "gx", "gy", "n", "size", "hashname", "hash", "hash_name",
+             "default_hash", "g")
 
     def __init__(self, name, p, a, b, gx, gy, n, size, hashname):
         self.name = name
@@ -40,6 +41,9 @@ class Curve:
     @property
     def hash(self):
         return self.hashname
+
+    hash_name = hash
+    default_hash = hash
 
     @property
     def g(self):
